@@ -362,6 +362,7 @@ fn syntax_group(repo: &Path) -> Files {
     }
     let main_idx = gen.sigs.get("module").map(|s| s.idx).unwrap_or_else(|| die("parser.rs: fn module not found".into()));
     let (fuel, trivia_pred) = policy::parse_module_facts(&pfile).unwrap_or_else(|e| die(e.0));
+    parser::check_primitives(&pfile).unwrap_or_else(|e| die(e.0));
 
     let mut p = String::new();
     p.push_str("import Glas.Model.Dsl\nimport Glas.Gen.Kind\n/-! GENERATED by xlate from crates/syntax/src/parser.rs — do not edit. -/\nnamespace Glas.Gen\nopen Glas.Dsl\n\n");
